@@ -11,7 +11,6 @@
 
 import io
 import os
-import textwrap
 import typing
 
 from .nodes import Node
@@ -144,6 +143,55 @@ def __write_smtlib(file: typing.TextIO, expr: Node):
         visit.extend(x for x in reversed(ex.data))
 
 
+def __write_smtlib_wrapped(file: typing.TextIO, expr: Node, width=78):
+    """Write the given smtlib expression like ``__write_smtlib``, but continue
+    on a new, indented line whenever a line would become longer than
+    ``width``. Lines are only broken between tokens, never within one."""
+    visit = [expr]
+    needs_space = False
+    col = 0
+    while visit:
+        ex = visit.pop()
+        if ex is None:
+            file.write(')')
+            col += 1
+            needs_space = True
+            continue
+
+        if ex.is_leaf():
+            if ex.data == '':
+                if needs_space:
+                    file.write(' ')
+                    col += 1
+                continue
+            if ex.data[0] == ';':
+                file.write(f'\n{ex.data}\n')
+                col = 0
+                needs_space = False
+                continue
+            token = ex.data
+        else:
+            token = '('
+
+        if needs_space:
+            if col + 1 + len(token) > width and col > 2:
+                file.write('\n  ')
+                col = 2
+            else:
+                file.write(' ')
+                col += 1
+        file.write(token)
+        nl = token.rfind('\n')
+        col = col + len(token) if nl < 0 else len(token) - nl - 1
+
+        if ex.is_leaf():
+            needs_space = True
+        else:
+            needs_space = False
+            visit.append(None)
+            visit.extend(x for x in reversed(ex.data))
+
+
 def __write_smtlib_pretty(file: typing.TextIO, expr: Node):
     """Write the given smtlib expression in one line into the file object."""
     visit = [(expr, False)]
@@ -201,14 +249,13 @@ def write_smtlib(file: typing.TextIO, exprs: typing.List[Node]):
             __write_smtlib_pretty(file, expr)
     else:
         # regular writeing
-        lines = [__write_smtlib_str(expr) for expr in exprs]
         if options.args().wrap_lines:
-            # wrap every line
-            lines = map(
-                lambda line: textwrap.wrap(
-                    line, width=78, subsequent_indent='  '), lines)
-            # and flatten the list
-            lines = [sub for line in lines for sub in line]
+            # wrap every expression, but only between tokens
+            for expr in exprs:
+                __write_smtlib_wrapped(file, expr)
+                file.write('\n')
+            return
+        lines = [__write_smtlib_str(expr) for expr in exprs]
         for line in lines:
             file.write(line)
             file.write('\n')
